@@ -80,6 +80,10 @@ def ref_model(kind, depth, accepted=None, apex=None):
     return quadtree.Model(depth, accepted if kind == "filtered" else None, apex or (0, 0, 0))
 
 
+def _foreign_idle(ev):
+    ev.wait()
+
+
 class StageHarness(Harness):
     stage = "stage"
     io_points = False
@@ -103,6 +107,26 @@ class StageHarness(Harness):
     # items the serial mode processes (computed once; compared with the reference model)
     def expected_items(self):
         raise NotImplementedError
+
+    def with_foreign_child(self, main):
+        """C19: the calling process may own other live children (an idle helper started earlier) while
+        the stage runs; failure detection must not depend on how many children the process has."""
+        if not getattr(self, "foreign_child", False):
+            return main
+
+        def main2():
+            import multiprocessing
+
+            ev = multiprocessing.Event()
+            fp = multiprocessing.Process(target=_foreign_idle, args=(ev,))
+            fp.start()
+            try:
+                return main()
+            finally:
+                ev.set()
+                fp.join()
+
+        return main2
 
     def _maybe_fail(self, key):
         if self.fail_item is not None and tuple(key) == tuple(self.fail_item):
@@ -240,7 +264,7 @@ class Walk(StageHarness):
             else:
                 pyr.walk(cb, parallel=W)
 
-        return main, mon, None
+        return self.with_foreign_child(main), mon, None
 
     def at_terminal(self, sched, mon):
         viol, obs = StageHarness.at_terminal(self, sched, mon)
@@ -550,6 +574,12 @@ def explore_to_part(cfg, prop, max_wall=None):
     part.count("steps", res.steps)
     for k, v in res.counters.items():
         part.count(k, v)
+    if res.deviation_bound is not None:
+        part.count("configurations_explored_under_a_deviation_bound")
+        part.notes.append(
+            "%s: every schedule with at most %d departures from the default order (keep running the process that moved last) explored; "
+            "termination analysis needs the full graph and was not run for this configuration" % (cfg.name, res.deviation_bound)
+        )
     if not res.exhaustive:
         part.count("configurations_not_exhausted")
         part.notes.append("%s: budget hit at %d states (not exhaustive)" % (cfg.name, res.states))
